@@ -75,7 +75,7 @@ def gen_plan(seed, index, tier="quick"):
             api, code = r.choice(USER_ERRORS[kind])
             faults.append({"on": {"request": api, "nth": r.randint(1, 6)}, "do": {"reply_error": code}})
     envs.sort(key=lambda e: e["at"])
-    return {"format": 1, "prop": "C19", "faults": faults, "max_iters": 4_000_000,
+    plan = {"format": 1, "prop": "C19", "faults": faults, "max_iters": 4_000_000,
             # an application that is not polling when stop() is called (an error handed to
             # the user may then still be unconsumed)
             "idle_pollers": kind in ("group", "simple") and r.random() < 0.4, "engine": "stop", "seed": scenario.subseed(seed, "C19", index),
@@ -84,6 +84,18 @@ def gen_plan(seed, index, tier="quick"):
             "second_member": kind == "group" and r.random() < 0.5,
             "nrec": r.randint(5, 40), "points": 8 if tier == "quick" else 40,
             "points_seed": r.randrange(1 << 30), "sweep": True}
+    # consumers whose assignment is replaced before stop(): the topic grows (noticed by the
+    # metadata refresh: rebalance / group-less re-assignment), or the application assigns anew
+    plan["simple_mode"] = r.choice(["assign", "subscribe"])
+    if kind in ("group", "simple") and env in ("healthy", "errors") and r.random() < 0.45:
+        at = round(r.uniform(0.05, horizon * 0.7), 3)
+        if kind == "simple" and plan["simple_mode"] == "assign" and r.random() < 0.5:
+            envs.append({"at": at, "do": "reassign"})
+        else:
+            envs.append({"at": at, "do": "partitions_grow"})
+            kw["metadata_max_age_ms"] = r.choice([100, 300])
+        envs.sort(key=lambda e: e["at"])
+    return plan
 
 
 def stop_bound(plan):
@@ -179,6 +191,18 @@ def execute_one(plan):
         elif e["do"] == "coordinator_loading":
             ctype, key = (0, "g") if kind == "group" else (1, "tx0")
             world.faults._apply_env("coordinator_loading", [cl.coordinator_for(ctype, key), e["d"]])
+        elif e["do"] == "partitions_grow":
+            p = cl.topics["t0"].add_partition()
+            world.log.add(world.now(), "partitions_grow", "t0", p.index)
+            world.count_fault("partitions_grow", world.now() + 2 * kw["metadata_max_age_ms"] / 1000)
+        elif e["do"] == "reassign":
+            c = obs.get("client")
+            if c is not None and obs.get("started") and obs["stop"] is None:
+                try:
+                    c.assign([TopicPartition("t0", p) for p in range(nparts) if p % 2 == 0])
+                    world.count_fault("reassign")
+                except Exception as exc:  # noqa: BLE001
+                    obs["notes"].append(("reassign_raised", repr(exc)[:120]))
 
     for e in plan["env"]:
         world.at(e["at"], apply_env, e)
@@ -203,8 +227,11 @@ def execute_one(plan):
             c = AIOKafkaConsumer("t0", bootstrap_servers=cl.bootstrap(), client_id=cid,
                                  group_id="g", **ckw)
         else:
-            c = AIOKafkaConsumer(bootstrap_servers=cl.bootstrap(), client_id=cid, **kw)
-            c.assign([TopicPartition("t0", p) for p in range(nparts)])
+            if plan.get("simple_mode") == "subscribe":
+                c = AIOKafkaConsumer("t0", bootstrap_servers=cl.bootstrap(), client_id=cid, **kw)
+            else:
+                c = AIOKafkaConsumer(bootstrap_servers=cl.bootstrap(), client_id=cid, **kw)
+                c.assign([TopicPartition("t0", p) for p in range(nparts)])
         obs["client"] = c
         try:
             await c.start()
